@@ -629,10 +629,6 @@ fn round_ascii_digits(
 
 #[inline(never)]
 pub(crate) fn write_scientific_notation<W: Write>(n: &BigDecimal, w: &mut W) -> fmt::Result {
-    if n.is_zero() {
-        return w.write_str("0e0");
-    }
-
     if n.int_val.sign() == Sign::Minus {
         w.write_str("-")?;
     }
